@@ -199,6 +199,12 @@ def energy_grid(pr, ks, tier, rng):
                 top = float(np.exp(d['partial'][0][1][-1, 0]))
                 cand.append(('top-', top * (1 - 1e-9)))
                 cand.append(('top+', top * (1 + 1e-6)))
+            # the sub-shell tables do not all end at the same energy: between two table ends some shells can still be ionised and others not
+            tops = sorted({float(np.exp(d['partial'][s][1][-1, 0])) for s in range(NS) if s in d['partial']})
+            for a_, b_ in zip(tops[:-1], tops[1:]):
+                fixed.append(('between-table-ends', 0.5 * (a_ + b_)))
+                cand.append(('table-end+', a_ * (1 + 1e-9)))
+                cand.append(('table-end-', b_ * (1 - 1e-9)))
         if tier == 'quick':
             n = max(0, 8 - len(fixed))
             if len(cand) > n:
